@@ -43,7 +43,8 @@ pub(crate) fn fragment_event(event: &'static str, index: u32) {
 // `ProcessBiPlanarFn`. The encoders report `[4, buffer pixels, view is contiguous]`
 // at the start of `for_each_chunk`, `[5, pixels]` for every chunk it hands to
 // `process_chunk`, and `[6, row, pixels, encoded blocks]` for every chunk of the
-// sub-sampled encoder.
+// sub-sampled encoder, and `[7, red * 8192 of the 16 gathered pixels]` for every
+// block handed to a block encoder.
 
 thread_local! {
     static BLOCK_TRACE: std::cell::RefCell<Option<Vec<Vec<usize>>>> = const { std::cell::RefCell::new(None) };
